@@ -75,6 +75,17 @@ fn var_stub<K: AsRef<std::ffi::OsStr>>(_k: K) -> Result<String, std::env::VarErr
     }
 }
 
+/// The working directory is part of the environment too: code that resolves a path against it
+/// (`std::path::absolute`, `std::env::current_dir`) gets "/w" - a directory that is NOT the
+/// configuration directory's parent, so resolving a relative configuration path early shows.
+fn absolute_stub<P: AsRef<std::path::Path>>(path: P) -> std::io::Result<std::path::PathBuf> {
+    let p = path.as_ref();
+    if p.has_root() { Ok(p.to_path_buf()) } else { Ok(std::path::PathBuf::from("/w").join(p)) }
+}
+fn current_dir_stub() -> std::io::Result<std::path::PathBuf> {
+    Ok(std::path::PathBuf::from("/w"))
+}
+
 /// Under Kani the stub above answers for the environment; in a native run (nd::search) stubs do
 /// not exist, so the real process environment is set instead.
 fn set_env_profile(e: u8) {
@@ -147,6 +158,8 @@ fn check_outcome(r: &Result<Cfg, crate::config::errors::ConfigLoadError>, vals: 
 #[kani::unwind(8)]
 #[kani::stub(std::fmt::format, fmt_stub)]
 #[kani::stub(std::env::var, var_stub)]
+#[kani::stub(std::path::absolute, absolute_stub)]
+#[kani::stub(std::env::current_dir, current_dir_stub)]
 fn c18_precedence_explicit_profile() {
     let vals = any_values();
     unsafe { fv::VALUES = vals };
@@ -178,6 +191,8 @@ fn c18_precedence_explicit_profile() {
 #[kani::unwind(8)]
 #[kani::stub(std::fmt::format, fmt_stub)]
 #[kani::stub(std::env::var, var_stub)]
+#[kani::stub(std::path::absolute, absolute_stub)]
+#[kani::stub(std::env::current_dir, current_dir_stub)]
 fn c18_profile_from_environment() {
     let vals = any_values();
     unsafe { fv::VALUES = vals };
